@@ -1,12 +1,12 @@
 CONSTANTS
   Certs = {"x1", "x3", "p1"}
   ChainOf <- MCChainOf
-  NoCache = TRUE
+  NoCache = FALSE
   Cap = 0
   MaxTree = 2
   MaxFaults = 1
   Depth = 0
-  Dialect = "memory"
+  Dialect = "postgresql"
 INIT Init
 NEXT Next
 VIEW StateView
